@@ -277,10 +277,12 @@ def coupled_totals(J, ins, outs, conn, fb):
 def coupled_solve_bounds(J, ins, outs, conn, fb, P0, lnbgs):
     """Round-off bound of the linear solve behind the totals of the cycle.  The harness assembles the same
     system OpenMDAO solves (unknowns: IndepVarComp outputs v, feedback output u, component outputs o),
-    checks that its solution reproduces the chain-rule reference, and returns per total the bound
-    64 n eps |A^-1| |L||U| |X| of Gaussian elimination with partial pivoting (Higham, Accuracy and Stability
-    of Numerical Algorithms, Thm 9.3/9.4; fwd: A X = E_v, rev: A^T Y = E_o; the larger of both), plus for
-    LinearBlockGS the normwise bound cond(A) * rtol * |X|max of its stopping criterion."""
+    checks that its solution reproduces the chain-rule reference, and returns per total the forward error
+    bound |A^-1| |dA| |X| of Gaussian elimination with partial pivoting, |dA| <= gamma_3n |L||U| <=
+    8 n eps * n max|A| elementwise independent of the pivot order (Higham, Accuracy and Stability of
+    Numerical Algorithms, Thm 9.3/9.4 with growth factor ~1; fwd: A X = E_v, rev: A^T Y = E_o; the larger of
+    both), plus for LinearBlockGS the normwise bound cond(A) * rtol * |X|max of its stopping criterion.
+    All sources are wired without unit conversion in this phase so that the system is O(1)-scaled."""
     t, s, g = fb['t'], fb['s'], fb['k']
     sizes_v = [int(np.prod(ins[k]['shape'])) for k in conn]
     sizes_o = [int(np.prod(o['shape'])) for o in outs]
@@ -305,11 +307,12 @@ def coupled_solve_bounds(J, ins, outs, conn, fb, P0, lnbgs):
     X = Ai[:, :nv]                                  # A X = E_v
     no = int(sum(sizes_o))
     L = Ai.T[:, nv + nt:]                           # A^T L = E_o
-    import scipy.linalg
-    Pm, Lm, Um = scipy.linalg.lu(A)                 # the factorization DirectSolver performs (LAPACK getrf)
-    G = np.maximum(np.abs(A), Pm @ (np.abs(Lm) @ np.abs(Um)))
-    Ef = np.abs(Ai) @ (G @ np.abs(X))
-    Er = np.abs(Ai.T) @ (G.T @ np.abs(L))
+    # |dA| <= gamma_n |L||U| <= gamma_n n rho max|A| elementwise, whatever the pivot order (growth factor rho ~ 1)
+    amax = float(np.max(np.abs(A)))
+    rs_f, cs_f = np.sum(np.abs(Ai), axis=1), np.sum(np.abs(X), axis=0)
+    rs_r, cs_r = np.sum(np.abs(Ai.T), axis=1), np.sum(np.abs(L), axis=0)
+    Ef = n * amax * np.outer(rs_f, cs_f)
+    Er = n * amax * np.outer(rs_r, cs_r)
     cnd = float(np.linalg.cond(A)) if lnbgs else 0.0
     res = {}
     for m in range(len(outs)):
@@ -319,7 +322,7 @@ def coupled_solve_bounds(J, ins, outs, conn, fb, P0, lnbgs):
             c = slice(off_v[k], off_v[k] + sizes_v[conn.index(k)])
             if not np.allclose(X[r, c], P0[(m, k)], rtol=1e-9, atol=1e-12 * (1.0 + np.max(np.abs(X)))):
                 raise RuntimeError('harness: chain-rule reference and assembled system disagree')
-            bound = 64 * n * EPS * np.maximum(Ef[r, c], Er[c, rl].T)
+            bound = 8 * n * EPS * np.maximum(Ef[r, c], Er[c, rl].T)
             if lnbgs:
                 bound = bound + 10 * cnd * 1e-15 * max(float(np.max(np.abs(X))), float(np.max(np.abs(L))))
             res[(m, k)] = bound
@@ -527,6 +530,8 @@ def embed(ctx, spec, hist, mode, seed):
     ins, outs = spec['ins'], spec['outs']
     for i in ins:
         i.pop('auto', None)          # always wired to an IndepVarComp here
+        if hist['embed'] != 'doe':
+            i['src_units'] = i['units']      # no conversion factors inside the coupled linear system
     hrng = np.random.default_rng([hist['hseed'], 3])
     conn = [k for k, i in enumerate(ins) if i['connected']]
     base = [np.array(i['val'], dtype=float).reshape(i['shape']) for i in ins]
